@@ -545,3 +545,367 @@ Fixpoint rendereds_eqb (a b : list rendered) : bool :=
   | x :: a', y :: b' => rendered_eqb x y && rendereds_eqb a' b'
   | _, _ => false
   end.
+
+(** * The 50 derive macros and which impls each emits for a given attribute set
+
+    Mirrors the decision layer above the header templates:
+      lib.rs 102-281 (the create_derive! table), from.rs expand 24-93 + Expansion::expand 147-264,
+      into.rs expand 25-116 + Expansion::expand 131-205, as/mod.rs expand 19-142 + to_tokens 187-260 (ImplKind),
+      utils.rs FullMetaInfo::ref_types 1240-1252 (into_iterator.rs 24, try_into.rs 36-48). *)
+
+Inductive addop := OAdd | OSub | OBitAnd | OBitOr | OBitXor.
+Inductive mulop := OMul | ODiv | ORem | OShr | OShl.
+Inductive notop := ONot | ONeg.
+Inductive fmtop := ODisplay | OBinary | OOctal | OLowerHex | OUpperHex | OLowerExp | OUpperExp | OPointer.
+
+Inductive derive :=
+| DAddLike (o : addop) | DAddAssignLike (o : addop) | DMulLike (o : mulop) | DMulAssignLike (o : mulop) | DNotLike (o : notop)
+| DSum | DProduct | DAsRef | DAsMut | DConstructor | DDebug | DFmt (o : fmtop) | DDeref | DDerefMut | DError | DFrom | DFromStr
+| DIndex | DIndexMut | DInto | DIntoIterator | DIsVariant | DUnwrap | DTryUnwrap | DTryFrom | DTryInto.
+
+Definition addop_name (o : addop) : str :=
+  match o with OAdd => s "Add" | OSub => s "Sub" | OBitAnd => s "BitAnd" | OBitOr => s "BitOr" | OBitXor => s "BitXor" end.
+Definition mulop_name (o : mulop) : str :=
+  match o with OMul => s "Mul" | ODiv => s "Div" | ORem => s "Rem" | OShr => s "Shr" | OShl => s "Shl" end.
+Definition notop_name (o : notop) : str := match o with ONot => s "Not" | ONeg => s "Neg" end.
+Definition fmtop_name (o : fmtop) : str :=
+  match o with
+  | ODisplay => s "Display" | OBinary => s "Binary" | OOctal => s "Octal" | OLowerHex => s "LowerHex"
+  | OUpperHex => s "UpperHex" | OLowerExp => s "LowerExp" | OUpperExp => s "UpperExp" | OPointer => s "Pointer"
+  end.
+
+(* the name under which lib.rs registers the derive *)
+Definition derive_name (d : derive) : str :=
+  match d with
+  | DAddLike o => addop_name o | DAddAssignLike o => addop_name o ++ s "Assign"
+  | DMulLike o => mulop_name o | DMulAssignLike o => mulop_name o ++ s "Assign" | DNotLike o => notop_name o
+  | DSum => s "Sum" | DProduct => s "Product" | DAsRef => s "AsRef" | DAsMut => s "AsMut" | DConstructor => s "Constructor"
+  | DDebug => s "Debug" | DFmt o => fmtop_name o | DDeref => s "Deref" | DDerefMut => s "DerefMut" | DError => s "Error"
+  | DFrom => s "From" | DFromStr => s "FromStr" | DIndex => s "Index" | DIndexMut => s "IndexMut" | DInto => s "Into"
+  | DIntoIterator => s "IntoIterator" | DIsVariant => s "IsVariant" | DUnwrap => s "Unwrap" | DTryUnwrap => s "TryUnwrap"
+  | DTryFrom => s "TryFrom" | DTryInto => s "TryInto"
+  end.
+
+Definition all_addops := [OAdd; OSub; OBitAnd; OBitOr; OBitXor].
+Definition all_mulops := [OMul; ODiv; ORem; OShr; OShl].
+Definition all_fmtops := [ODisplay; OBinary; OOctal; OLowerHex; OUpperHex; OLowerExp; OUpperExp; OPointer].
+
+Definition all_derives : list derive :=
+  map DAddLike all_addops ++ map DAddAssignLike all_addops ++ map DMulLike all_mulops ++ map DMulAssignLike all_mulops
+  ++ [DNotLike ONot; DNotLike ONeg; DSum; DProduct; DAsRef; DAsMut; DConstructor; DDebug] ++ map DFmt all_fmtops
+  ++ [DDeref; DDerefMut; DError; DFrom; DFromStr; DIndex; DIndexMut; DInto; DIntoIterator; DIsVariant; DUnwrap;
+      DTryUnwrap; DTryFrom; DTryInto].
+
+(** ** From (from.rs) *)
+
+(* attr::FieldConversion as parsed from #[from], #[from(skip)], #[from(forward)], #[from(<types>)] *)
+Inductive conv_attr := CAbsent | CEmpty | CSkip | CForward | CTypes (tys : list utext).
+
+Record variant := V { v_fields : list utext; v_attr : conv_attr }.
+
+Inductive from_input :=
+| FromStruct (attr : conv_attr) (fields : list utext)
+| FromEnum (vs : list variant).
+
+(* from.rs:55-66 *)
+Definition explicit_from (a : conv_attr) : bool :=
+  match a with CEmpty | CTypes _ | CForward => true | _ => false end.
+
+Definition is_nil {A} (l : list A) : bool := match l with [] => true | _ => false end.
+
+(* from.rs Expansion::expand 147-264 for one struct / one variant *)
+Definition from_expansion (attr : conv_attr) (is_variant has_explicit_from : bool) (fields : list utext) : list family :=
+  let skip_variant := has_explicit_from || (is_variant && is_nil fields) in
+  match attr, skip_variant with
+  | CTypes tys, _ => map (fun t => FFrom (TUser RNo t)) tys
+  | CEmpty, _ | CAbsent, false => [FFrom (TTuple RNo fields)]
+  | CForward, _ => [FFromForward fields]
+  | CSkip, _ | CAbsent, true => []
+  end.
+
+Definition from_families (i : from_input) : list family :=
+  match i with
+  | FromStruct attr fields => from_expansion attr false false fields
+  | FromEnum vs =>
+      let has := existsb (fun v => explicit_from (v_attr v)) vs in
+      flat_map (fun v => from_expansion (v_attr v) true has (v_fields v)) vs
+  end.
+
+(** ** Into (into.rs) *)
+
+Record convs := Cv { c_consider : bool; c_tys : list (list utext) }.   (* each listed type, split per field by validate_type *)
+Record conv3 := C3 { c_owned : convs; c_ref : convs; c_ref_mut : convs }.
+
+(* into.rs:324-333 Default for ConversionsAttribute *)
+Definition conv_default : conv3 := C3 (Cv true []) (Cv false []) (Cv false []).
+
+Record into_field := IF { if_ty : utext; if_skip : bool; if_convs : option conv3 }.
+
+(* struct attribute: absent / #[into] / #[into(...)] *)
+Inductive into_sattr := SAbsent | SEmpty | SConvs (c : conv3).
+Record into_input := II { in_attr : into_sattr; in_fields : list into_field }.
+
+(* into.rs Expansion::expand 131-205: owned, ref, ref_mut in this order; the fields' own tuple first, then the listed types *)
+Definition into_expansion (fields : list utext) (c : conv3) : list family :=
+  flat_map (fun '(cv, sel) =>
+              if c_consider cv || negb (is_nil (c_tys cv))
+              then (if c_consider cv then [FInto sel fields] else []) ++ map (FInto sel) (c_tys cv)
+              else [])
+           [(c_owned c, SOwned); (c_ref c, SRef); (c_ref_mut c, SMut)].
+
+Definition is_none {A} (o : option A) : bool := match o with None => true | Some _ => false end.
+
+(* into.rs expand 25-116 *)
+Definition into_families (i : into_input) : list family :=
+  let struct_attr :=
+    match in_attr i with
+    | SEmpty => Some conv_default
+    | SConvs c => Some c
+    | SAbsent => if forallb (fun f => is_none (if_convs f)) (in_fields i) then Some conv_default else None
+    end in
+  flat_map (fun f => match if_convs f with Some c => into_expansion [if_ty f] c | None => [] end) (in_fields i)
+  ++ match struct_attr with
+     | Some c => into_expansion (map if_ty (filter (fun f => negb (if_skip f)) (in_fields i))) c
+     | None => []
+     end.
+
+(** ** AsRef / AsMut (as/mod.rs) *)
+
+Inductive asref_sattr := ASNone | ASForward | ASTypes (tys : list utext).
+Record asref_input := AR { ar_attr : asref_sattr; ar_fields : list (utext * conv_attr) }.
+
+(* GenericsSearch::any_in: any type, lifetime or const parameter of the item occurs in the type *)
+Definition mentions_generics (u : utext) : bool := negb (is_nil (u_free u)).
+
+(* as/mod.rs to_tokens 205-240: one impl per return type, ImplKind by syntactic equality and the generics search *)
+Definition asref_expansion (tr : str) (fty : utext) (conv : asref_sattr) : list family :=
+  match conv with
+  | ASForward => [FAsRef tr (AsBlanket fty)]
+  | ASNone => [FAsRef tr (AsPlain fty)]
+  | ASTypes tys =>
+      map (fun ret =>
+             if str_eqb (u_text fty) (u_text ret) then FAsRef tr (AsPlain ret)
+             else if mentions_generics fty || mentions_generics ret then FAsRef tr (AsForwarded fty ret)
+             else FAsRef tr (AsPlain ret)) tys
+  end.
+
+Definition conv_present (a : conv_attr) : bool := match a with CAbsent => false | _ => true end.
+Definition conv_is_skip (a : conv_attr) : bool := match a with CSkip => true | _ => false end.
+
+(* as/mod.rs expand 36-142 (error paths excluded: they emit a diagnostic, not an impl) *)
+Definition asref_families (tr : str) (i : asref_input) : list family :=
+  match ar_attr i with
+  | ASNone =>
+      let present := filter (fun f => conv_present (snd f)) (ar_fields i) in
+      if forallb (fun f => conv_is_skip (snd f)) present
+      then flat_map (fun f => match snd f with CAbsent => asref_expansion tr (fst f) ASNone | _ => [] end) (ar_fields i)
+      else flat_map (fun f => match snd f with
+                              | CEmpty => asref_expansion tr (fst f) ASNone
+                              | CForward => asref_expansion tr (fst f) ASForward
+                              | CTypes tys => asref_expansion tr (fst f) (ASTypes tys)
+                              | _ => []
+                              end) (ar_fields i)
+  | a => match ar_fields i with
+         | [f] => asref_expansion tr (fst f) a
+         | _ => []
+         end
+  end.
+
+(** ** owned / ref / ref_mut selections (utils.rs FullMetaInfo::ref_types) *)
+
+Definition ref_types (owned ref_ ref_mut : bool) : list refsel :=
+  (if owned then [SOwned] else []) ++ (if ref_ then [SRef] else []) ++ (if ref_mut then [SMut] else []).
+
+(* try_into.rs 36-48: one impl per (selection, field types) pair, first occurrence order here (the code iterates a hash map) *)
+Record tvariant := TV { tv_tys : list utext; tv_owned : bool; tv_ref : bool; tv_ref_mut : bool }.
+
+Fixpoint utexts_eqb (a b : list utext) : bool :=
+  match a, b with
+  | [], [] => true
+  | x :: a', y :: b' => str_eqb (u_text x) (u_text y) && utexts_eqb a' b'
+  | _, _ => false
+  end.
+Definition refsel_eqb (a b : refsel) : bool :=
+  match a, b with SOwned, SOwned | SRef, SRef | SMut, SMut => true | _, _ => false end.
+
+Fixpoint dedup_keys (l : list (refsel * list utext)) : list (refsel * list utext) :=
+  match l with
+  | [] => []
+  | k :: r => k :: filter (fun k' => negb (refsel_eqb (fst k) (fst k') && utexts_eqb (snd k) (snd k'))) (dedup_keys r)
+  end.
+
+Definition tryinto_families (vs : list tvariant) : list family :=
+  map (fun k => FTryInto (fst k) (snd k))
+      (dedup_keys (flat_map (fun v => map (fun sel => (sel, tv_tys v)) (ref_types (tv_owned v) (tv_ref v) (tv_ref_mut v))) vs)).
+
+(** ** Everything a derive needs to know to build its headers *)
+
+Inductive dinput :=
+| IPlain                                               (* no further input *)
+| IFmtBounds (bounds : list pred)                      (* fmt: the inferred / bound(...) predicates (C04's subject) *)
+| IForward (fwd : bool)                                (* #[mul(forward)], #[mul_assign(forward)] *)
+| IScalar (nfields : nat) (dtys : list utext)          (* mul-like without forward: enabled fields, distinct types *)
+| IFromI (i : from_input)
+| IIntoI (i : into_input)
+| IAsRefI (i : asref_input)
+| IDerefI (fwd : option utext)
+| IField (fty : utext)                                 (* index / index_mut: the single enabled field *)
+| IRefs (owned ref_ ref_mut : bool) (fty : utext)      (* into_iterator *)
+| ITryIntoI (vs : list tvariant)
+| IErrorI (bounds : list utext)
+| IEnum (is_enum : bool)                               (* from_str *)
+| IRepr (repr : str).                                  (* try_from *)
+
+Definition families_of (d : derive) (i : dinput) : list family :=
+  match d, i with
+  | DAddLike o, IPlain => [FAddLike (addop_name o)]
+  | DNotLike o, IPlain => [FAddLike (notop_name o)]
+  | DAddAssignLike o, IPlain => [FAddAssignLike (addop_name o ++ s "Assign")]
+  | DMulLike o, IForward true => [FAddLike (mulop_name o)]
+  | DMulLike o, IScalar n dtys => [FMulLike (mulop_name o) n dtys]
+  | DMulAssignLike o, IForward true => [FAddAssignLike (mulop_name o ++ s "Assign")]
+  | DMulAssignLike o, IScalar n dtys => [FMulAssignLike (mulop_name o ++ s "Assign") n dtys]
+  | DSum, IPlain => [FSum (s "Sum") (s "Add")]
+  | DProduct, IPlain => [FSum (s "Product") (s "Mul")]
+  | DAsRef, IAsRefI a => asref_families (s "AsRef") a
+  | DAsMut, IAsRefI a => asref_families (s "AsMut") a
+  | DConstructor, IPlain | DIsVariant, IPlain | DUnwrap, IPlain | DTryUnwrap, IPlain => [FInherent]
+  | DDebug, IFmtBounds b => [FFmt (s "Debug") b]
+  | DFmt o, IFmtBounds b => [FFmt (fmtop_name o) b]
+  | DDeref, IDerefI fwd => [FDeref (s "Deref") fwd]
+  | DDerefMut, IDerefI fwd => [FDeref (s "DerefMut") fwd]
+  | DError, IErrorI b => [FError b]
+  | DFrom, IFromI f => from_families f
+  | DFromStr, IEnum true => [FFromStrEnum]
+  | DFromStr, IEnum false => [FFromStrStruct]
+  | DIndex, IField fty => [FIndex (s "Index") fty]
+  | DIndexMut, IField fty => [FIndex (s "IndexMut") fty]
+  | DInto, IIntoI a => into_families a
+  | DIntoIterator, IRefs o r m fty => map (fun sel => FIntoIterator sel fty) (ref_types o r m)
+  | DTryFrom, IRepr repr => [FTryFrom repr]
+  | DTryInto, ITryIntoI vs => tryinto_families vs
+  | _, _ => []
+  end.
+
+Definition headers_of (d : derive) (i : dinput) (g : generics) : list hdr := map (fun f => header f g) (families_of d i).
+
+(* every piece of user syntax an input carries *)
+Definition conv_utexts (a : conv_attr) : list utext := match a with CTypes tys => tys | _ => [] end.
+Definition convs_utexts (c : convs) : list utext := concat (c_tys c).
+Definition conv3_utexts (c : conv3) : list utext := convs_utexts (c_owned c) ++ convs_utexts (c_ref c) ++ convs_utexts (c_ref_mut c).
+
+Definition input_utexts (i : dinput) : list utext :=
+  match i with
+  | IScalar _ dtys => dtys
+  | IFromI (FromStruct a fs) => conv_utexts a ++ fs
+  | IFromI (FromEnum vs) => flat_map (fun v => conv_utexts (v_attr v) ++ v_fields v) vs
+  | IIntoI a => match in_attr a with SConvs c => conv3_utexts c | _ => [] end
+                ++ flat_map (fun f => if_ty f :: match if_convs f with Some c => conv3_utexts c | None => [] end) (in_fields a)
+  | IAsRefI a => match ar_attr a with ASTypes tys => tys | _ => [] end
+                 ++ flat_map (fun f => fst f :: conv_utexts (snd f)) (ar_fields a)
+  | IDerefI (Some u) => [u]
+  | IField u => [u]
+  | IRefs _ _ _ u => [u]
+  | ITryIntoI vs => flat_map tv_tys vs
+  | IErrorI b => b
+  | _ => []
+  end.
+
+(* the hypotheses of the all-derives theorem *)
+Definition input_ok (i : dinput) (g : generics) : Prop :=
+  incl (flat_map u_free (input_utexts i)) (g_names g)
+  /\ match i with
+     | IFmtBounds bounds => incl (flat_map pred_names bounds) (g_names g) /\ Forall (ty_ok g) (flat_map pred_tys bounds)
+     | _ => True
+     end.
+
+(** ** Placement of parameters: lifetimes, then types, then consts *)
+
+Definition kind_rank (k : pkind) : nat := match k with KLt => 0 | KTy => 1 | KConst => 2 end.
+
+Fixpoint kinds_sorted (ks : list pkind) : bool :=
+  match ks with
+  | [] => true
+  | k :: r => forallb (fun k' => Nat.leb (kind_rank k) (kind_rank k')) r && kinds_sorted r
+  end.
+
+(* pairwise distinct (selection, field types) keys: no two TryFrom impls of derive(TryInto) target the same tuple *)
+Definition key_eq (a b : refsel * list utext) : bool := refsel_eqb (fst a) (fst b) && utexts_eqb (snd a) (snd b).
+Fixpoint keys_distinct (l : list (refsel * list utext)) : bool :=
+  match l with
+  | [] => true
+  | k :: r => forallb (fun k' => negb (key_eq k k')) r && keys_distinct r
+  end.
+Definition tryinto_keys (vs : list tvariant) : list (refsel * list utext) :=
+  dedup_keys (flat_map (fun v => map (fun sel => (sel, tv_tys v)) (ref_types (tv_owned v) (tv_ref v) (tv_ref_mut v))) vs).
+
+(** * Which item shapes a derive accepts (attribute-free inputs; `fwd` = #[mul(forward)] / #[mul_assign(forward)])
+
+    Mirrors the shape checks at the top of every expand(): add_like.rs 21-40, add_assign_like.rs 16-30,
+    mul_like.rs 10-18 + utils.rs State::enabled_fields_data 587-590, sum_like.rs 10-11, as/mod.rs 25-35,
+    constructor.rs 12-26, fmt/display.rs expand_struct / expand_enum (implicit formats), deref.rs / index.rs /
+    into_iterator.rs via State::assert_single_enabled_field 560-569, from_str.rs 11-24 + 61-63, into.rs 28-38,
+    is_variant.rs 19-22, unwrap.rs 19-22 + get_field_info, try_from.rs 14-18, try_into.rs 24-27. *)
+
+Inductive vkind := VUnit | VTuple (n : nat) | VNamed (n : nat).
+Inductive shape := SStruct (k : vkind) | SEnum (vs : list vkind).
+
+Definition vk_fields (k : vkind) : nat := match k with VUnit => 0%nat | VTuple n => n | VNamed n => n end.
+Definition vk_is_unit (k : vkind) : bool := match k with VUnit => true | _ => false end.
+Definition vk_is_named (k : vkind) : bool := match k with VNamed _ => true | _ => false end.
+
+Definition add_like_accepts (sh : shape) : bool :=
+  match sh with SStruct k => negb (vk_is_unit k) | SEnum _ => true end.
+Definition add_assign_like_accepts (sh : shape) : bool :=
+  match sh with SStruct k => negb (vk_is_unit k) | SEnum _ => false end.
+Definition struct_only (sh : shape) : bool := match sh with SStruct _ => true | SEnum _ => false end.
+Definition enum_only (sh : shape) : bool := match sh with SStruct _ => false | SEnum _ => true end.
+Definition single_field_struct (sh : shape) : bool :=
+  match sh with SStruct k => Nat.eqb (vk_fields k) 1 | SEnum _ => false end.
+
+(* fmt/display.rs: without a format attribute a struct / variant may have at most one field; a field-less enum variant
+   has an implicit format (its name) for Display only *)
+Definition fmt_accepts (is_display : bool) (sh : shape) : bool :=
+  match sh with
+  | SStruct k => Nat.leb (vk_fields k) 1
+  | SEnum vs => forallb (fun k => match vk_fields k with
+                                  | O => is_display
+                                  | S O => true
+                                  | _ => false
+                                  end) vs
+  end.
+
+Definition accepts (d : derive) (fwd : bool) (sh : shape) : bool :=
+  match d with
+  | DAddLike _ | DNotLike _ => add_like_accepts sh
+  | DAddAssignLike _ => add_assign_like_accepts sh
+  | DMulLike _ => if fwd then add_like_accepts sh else struct_only sh
+  | DMulAssignLike _ => if fwd then add_assign_like_accepts sh else struct_only sh
+  | DSum | DProduct | DAsRef | DAsMut | DConstructor | DInto => struct_only sh
+  | DDebug | DError | DFrom => true
+  | DFmt o => fmt_accepts (match o with ODisplay => true | _ => false end) sh
+  | DDeref | DDerefMut | DIndex | DIndexMut | DIntoIterator => single_field_struct sh
+  | DFromStr => match sh with
+                | SStruct k => Nat.eqb (vk_fields k) 1
+                | SEnum vs => forallb (fun k => Nat.eqb (vk_fields k) 0) vs
+                end
+  | DIsVariant | DTryFrom | DTryInto => enum_only sh
+  | DUnwrap | DTryUnwrap => match sh with SStruct _ => false | SEnum vs => forallb (fun k => negb (vk_is_named k)) vs end
+  end.
+
+(* what impl/doc/*.md lists as supported for an attribute-free item *)
+Definition documented (d : derive) (sh : shape) : bool :=
+  match d, sh with
+  | (DAddLike _ | DNotLike _), SStruct k => negb (vk_is_unit k) && Nat.leb 1 (vk_fields k)
+  | (DAddLike _ | DNotLike _), SEnum _ => true
+  | (DAddAssignLike _ | DMulLike _ | DMulAssignLike _ | DSum | DProduct), SStruct k => Nat.leb 1 (vk_fields k)
+  | (DConstructor | DInto | DFrom | DDebug | DError), SStruct _ => true
+  | (DAsRef | DAsMut | DDeref | DDerefMut | DIndex | DIndexMut | DIntoIterator | DFromStr), SStruct k => Nat.eqb (vk_fields k) 1
+  | DFmt _, SStruct k => Nat.leb (vk_fields k) 1
+  | DFmt ODisplay, SEnum vs => forallb (fun k => Nat.leb (vk_fields k) 1) vs
+  | DFmt _, SEnum vs => forallb (fun k => Nat.eqb (vk_fields k) 1) vs
+  | (DDebug | DError | DFrom | DIsVariant | DTryFrom | DTryInto), SEnum _ => true
+  | DFromStr, SEnum vs => forallb vk_is_unit vs
+  | (DUnwrap | DTryUnwrap), SEnum vs => forallb (fun k => negb (vk_is_named k)) vs
+  | _, _ => false
+  end.
